@@ -88,6 +88,35 @@ def put(path, state, valid=b"{}"):
         f.write(data)
 
 
+ODD_JSON = [None, [], {}, 5, 1.5, "s", "  ", True, [None], {"x": None}, ["a", 5], {"hooks": None}, "dippy"]
+
+
+def mutate_json(r, v):
+    """valid JSON of an unexpected shape: one randomly chosen subtree replaced by something of another type"""
+    paths = []
+
+    def walk(x, path):
+        paths.append(path)
+        if isinstance(x, dict):
+            for k in x:
+                walk(x[k], path + [k])
+        elif isinstance(x, list):
+            for i in range(len(x)):
+                walk(x[i], path + [i])
+
+    walk(v, [])
+    path = r.pick(paths)
+    new = r.pick(ODD_JSON)
+    if not path:
+        return new
+    v = json.loads(json.dumps(v))
+    cur = v
+    for k in path[:-1]:
+        cur = cur[k]
+    cur[path[-1]] = new
+    return v
+
+
 def has_break(x) -> bool:
     if isinstance(x, str):
         return any(c in x for c in "\n\r\x0b\x0c\x1c\x1d\x1e\x85  ")
@@ -220,15 +249,32 @@ def search(ctx):
                         put(entry, states["entry"], valid=b"cached line")
                     states["mcp"] = rr.pick(FILE_STATES)
                     put(targets["mcp"], states["mcp"], valid=b"srv1, srv2")
-                states["settings"] = rr.pick(FILE_STATES)
-                put(targets["settings"], states["settings"], valid=json.dumps({"hooks": {"PreToolUse": [{"matcher": "Bash", "hooks": [{"command": "dippy"}]}]}}).encode())
-                states["mcplocal"] = rr.pick(FILE_STATES + ["names-with-breaks"])
+                # "shape": valid JSON with a subtree of an unexpected type ({"hooks": null}, a string where a list is expected …)
+                settings_ok = {"hooks": {"PreToolUse": [{"matcher": "Bash", "hooks": [{"type": "command", "command": "dippy"}]}]}}
+                states["settings"] = rr.pick(FILE_STATES + ["shape", "shape"])
+                if states["settings"] == "shape":
+                    shaped = mutate_json(rr, settings_ok)
+                    states["settings"] = "shape:" + json.dumps(shaped)[:80]
+                    put(targets["settings"], "valid", valid=json.dumps(shaped).encode())
+                else:
+                    put(targets["settings"], states["settings"], valid=json.dumps(settings_ok).encode())
+                states["mcplocal"] = rr.pick(FILE_STATES + ["names-with-breaks", "shape"])
                 if states["mcplocal"] == "names-with-breaks":
                     put(targets["mcplocal"], "valid", valid=json.dumps({"mcpServers": {"a\nb": {}, "c\r\nd": {}}}).encode())
+                elif states["mcplocal"] == "shape":
+                    shaped = mutate_json(rr, {"mcpServers": {"local1": {"command": "x"}, "l2": {}}})
+                    states["mcplocal"] = "shape:" + json.dumps(shaped)[:80]
+                    put(targets["mcplocal"], "valid", valid=json.dumps(shaped).encode())
                 else:
                     put(targets["mcplocal"], states["mcplocal"], valid=json.dumps({"mcpServers": {"local1": {}}}).encode())
-                states["transcript"] = rr.pick(FILE_STATES)
-                put(targets["transcript"], states["transcript"], valid=b'{"message": {"usage": {"input_tokens": 100}}}\n')
+                states["transcript"] = rr.pick(FILE_STATES + ["shape"])
+                tr_ok = {"message": {"usage": {"input_tokens": 100, "cache_read_input_tokens": 5, "cache_creation_input_tokens": 7}}}
+                if states["transcript"] == "shape":
+                    lines = [json.dumps(mutate_json(rr, tr_ok)) for _ in range(rr.randint(1, 3))]
+                    states["transcript"] = "shape:" + lines[-1][:80]
+                    put(targets["transcript"], "valid", valid=("\n".join(lines) + "\n").encode())
+                else:
+                    put(targets["transcript"], states["transcript"], valid=(json.dumps(tr_ok) + "\n").encode())
                 states["log"] = rr.pick(["absent", "absent", "dir", "huge"])
                 put(targets["log"], states["log"])
                 before = tree.snapshot()
